@@ -515,6 +515,37 @@ HARMLESS_X86.append(("process_memory_address: operands built by conditional expr
            lambda m: '        indexOp = None if index is None else RegisterOperand(%s)\n' % m.group(1)))),
     BASE: sub('file_content.split("\\n")', 'file_content.split(sep=chr(10))')}))
 
+SLOT_LOOP_OLD_A64 = '''            + pp.Optional(operand_first.setResultsName("operand1"))
+            + pp.Optional(pp.Suppress(pp.Literal(",")))
+            + pp.Optional(operand_rest.setResultsName("operand2"))
+            + pp.Optional(pp.Suppress(pp.Literal(",")))
+            + pp.Optional(operand_rest.setResultsName("operand3"))
+            + pp.Optional(pp.Suppress(pp.Literal(",")))
+            + pp.Optional(operand_rest.setResultsName("operand4"))
+            + pp.Optional(pp.Suppress(pp.Literal(",")))
+            + pp.Optional(operand_rest.setResultsName("operand5"))
+            + pp.Optional(self.comment)
+        )
+'''
+SLOT_LOOP_NEW = '''            + pp.Optional(operand_first.setResultsName("operand1"))
+        )
+        for slot in range(2, %d):
+            self.instruction_parser += pp.Optional(pp.Suppress(pp.Literal(",")))
+            self.instruction_parser += pp.Optional(operand_rest.setResultsName(f"operand{slot}"))
+        self.instruction_parser += pp.Optional(self.comment)
+'''
+HARMLESS_A64.append(("operand slots 2..5 appended to instruction_parser in a loop", {A64: sub(SLOT_LOOP_OLD_A64, SLOT_LOOP_NEW % 6)}))
+HARMLESS_X86.append(("operand slots 2..4 appended to instruction_parser in a loop", {X86: sub(
+    SLOT_LOOP_OLD_A64.replace('            + pp.Optional(pp.Suppress(pp.Literal(",")))\n            + pp.Optional(operand_rest.setResultsName("operand5"))\n', ""),
+    SLOT_LOOP_NEW % 5)}))
+HARMLESS_X86.append(("tuple / chained assignments in process_memory_address, comment joined in an if-statement", {X86: chain(
+    within("process_memory_address", chain(
+        sub('        base = memory_address.get("base", None)\n        baseOp = None\n        indexOp = None\n        index = memory_address.get("index", None)\n',
+            '        base, index = memory_address.get("base", None), memory_address.get("index", None)\n        baseOp = indexOp = None\n'))),
+    within("parse_instruction", chain(
+        sub('        return_dict = InstructionForm(', '        comment = None\n        if self.comment_id in result:\n            comment = " ".join(result[self.comment_id])\n        return_dict = InstructionForm('),
+        sub('comment_id=" ".join(result[self.comment_id]) if self.comment_id in result else None', 'comment_id=comment'))))}))
+
 REAL_A64 = [
     ("comment symbol // -> ;", {A64: sub('symbol_comment = "//"', 'symbol_comment = ";"')}),
     ("shift op ror dropped", {A64: sub('            ^ pp.CaselessLiteral("ror")\n', '')}),
